@@ -103,6 +103,8 @@ def harness_line(c):
          f'trust={trust}', f'cert={loc["cert"]}', f'key={loc["key"]}', f'peer={c["peer"]}', f'offer={c["offer"]}']
     if c.get('ctor'):
         t.append(f'ctor={c["ctor"]}')
+    if 'wild' in c:
+        t.append(f'wildcard={int(c["wild"])}')
     if c['presented']:
         pname, with_chain = presented_of(c)
         p = CERTS[pname]
@@ -219,6 +221,17 @@ def grid(full):
                 add(cell('fficlient', mn, 'ca', False, name, trust, local, 'openssl', offer, pres, label))
             for label, trust, local, pres in client_ss:
                 add(cell('fficlient', mn, 'ss', False, None, trust, local, 'openssl', offer, pres, label))
+    # C ABI client: allow_server_name_wildcard x dns_name. Name verification is off only for dns_name "*" WITH the wildcard
+    # permitted; a real name is verified whether or not the wildcard is permitted; "*" without permission is not a name
+    # any certificate carries (the channel cannot even be created)
+    for mn in ('12', '13'):
+        for offer in ('12', '13', 'both'):
+            for label, dns, wild, pres in [('wildcard-permitted-right-name', 'test.com', True, 'ca2/server'),
+                                           ('wildcard-permitted-wrong-name', 'wrong.example', True, 'ca2/server'),
+                                           ('wildcard-permitted-right-name-of-wrongname-cert', 'wrong.example', True, 'ca2/server_wrongname'),
+                                           ('star-without-permission', '*', False, 'ca2/server'),
+                                           ('not-permitted-wrong-name', 'wrong.example', False, 'ca2/server')]:
+                add(dict(cell('fficlient', mn, 'ca', False, dns, 'ca2', 'ca2/client', 'openssl', offer, pres, label), wild=wild))
     if full:
         return cells
     # core grid: every version cell with a valid certificate against the independent peer, plus one
@@ -282,6 +295,8 @@ def run_stalled_handshake(ctx):
 
 def judge(c, impl, want):
     """compare one harness result with an expected 'OK:ver:role' / 'REFUSED'; returns None or a description"""
+    if impl.startswith('CONFIG') and c.get('label') == 'star-without-permission':
+        impl = 'REFUSED:-:-:0'          # the channel cannot be created: it never connects
     parts = impl.split(':')
     if len(parts) != 4 or parts[0] not in ('OK', 'REFUSED'):
         return f'unusable harness result {impl}'
@@ -377,7 +392,7 @@ def run(ctx):
                                 f[0]['label'] not in ('valid', 'valid2'), f[0]['side'] != 'server', f[0]['mode'] != 'ca', not f[0]['authz']))
     seen = set()
     for c, i, spec, d in failing:
-        cls = (c['side'], c.get('ctor'), c['min'], c['label'].rstrip('2'), c['offer'], i.split(':')[0])
+        cls = (c['side'], c.get('ctor'), c['min'], c['label'].rstrip('2'), i.split(':')[0])
         if cls in seen or len(seen) >= 4:
             continue
         seen.add(cls)
@@ -397,7 +412,7 @@ def run(ctx):
     if not ctx.replay:
         need = ['ctor:new', 'side:server', 'side:client', 'side:ffiserver', 'side:fficlient', 'min:12', 'min:13', 'mode:ca', 'mode:ss', 'peer:openssl', 'peer:rodbus', 'peer:plain', 'offer:12', 'offer:13',
                 'offer:both', 'cert:valid', 'cert:wrong-authority', 'cert:wrong-name', 'cert:expired', 'cert:not-yet-valid', 'cert:role-less', 'cert:other-role', 'cert:two-roles', 'cert:via-intermediate', 'cert:missing-intermediate', 'cert:name-in-cn-no-san',
-                'cert:name-in-cn-but-other-san', 'cert:ip-literal-name-expected',
+                'cert:name-in-cn-but-other-san', 'cert:ip-literal-name-expected', 'cert:wildcard-permitted-wrong-name', 'cert:star-without-permission',
                 'expected:OK', 'expected:REFUSED']
         ctx.oblige('grid-reaches-expected-classes', all(classes.get(k, 0) >= 1 for k in need), str({k: classes.get(k, 0) for k in need}))
     ctx.coverage.update({
